@@ -6,6 +6,7 @@ import (
 
 	"github.com/chain4energy/c4e-chain/x/cfevesting/types"
 	sdk "github.com/cosmos/cosmos-sdk/types"
+	authtypes "github.com/cosmos/cosmos-sdk/x/auth/types"
 )
 
 const NONNEGATIVE_AMOUNTS_INVARIANT = "nonnegative vesting pool amounts"
@@ -67,9 +68,9 @@ func ModuleAccountInvariant(k Keeper) sdk.Invariant {
 	return func(ctx sdk.Context) (string, bool) {
 		sum := getLockedSum(k, ctx)
 
-		account := k.account.GetModuleAccount(ctx, types.ModuleName)
+		// an invariant must not write: GetModuleAccount would create the module account when it does not exist yet
 		denom := k.GetParams(ctx).Denom
-		balance := k.bank.GetBalance(ctx, account.GetAddress(), denom)
+		balance := k.bank.GetBalance(ctx, authtypes.NewModuleAddress(types.ModuleName), denom)
 
 		if !balance.Amount.Equal(sum) {
 			return sdk.FormatInvariant(types.ModuleName, "module account", fmt.Sprintf("\tamount (%s) inconsistent with vesting pools (%s)", balance.Amount, sum)), true
